@@ -128,6 +128,10 @@ def main():
             js.append(cbmc.Job('c05.add_var.class%d.fill%d' % (cls, fill), TUS_T, 'h_add_var', defs=['CLASS=%d' % cls, 'FILL=%d' % fill], unwind=70, timeout=600,
                                funcs=['orc_program_add_source', 'orc_program_add_destination', 'orc_program_add_temporary', 'orc_program_add_constant', 'orc_program_add_parameter',
                                       'orc_program_add_accumulator', 'orc_program_add_parameter_int64', 'orc_program_add_constant_int64']))
+    for api in range(7):
+        for fill in (99, 100) if t == 'quick' else (0, 98, 99, 100):
+            js.append(cbmc.Job('c05.append.api%d.fill%d' % (api, fill), TUS_T, 'h_append', defs=['API=%d' % api, 'FILL=%d' % fill], unwind=104, unwindset=['memcmp.0:300'], timeout=900,
+                               funcs=['orc_program_append', 'orc_program_append_2', 'orc_program_append_ds', 'orc_program_append_str', 'orc_program_append_str_2', 'orc_program_append_ds_str', 'orc_program_append_str_n']))
     for c in ([['CFG_PROG=3'], ['CFG_FAIL=1'], ['CFG_RULE=0', 'CFG_PROG=1'], ['CFG_CHUNK=2', 'CFG_PROG=2']] if t == 'quick' else
               [['CFG_PROG=%d' % p_] + e for p_ in (0, 1, 2, 3) for e in ([], ['CFG_FAIL=1'], ['CFG_FAIL=2'], ['CFG_RULE=0'], ['CFG_CHUNK=0'], ['CFG_CHUNK=2'], ['CFG_E=1'], ['CFG_T=0'])]):
         js.append(cbmc.Job('c05.classify.' + '_'.join(x.replace('CFG_', '').replace('=', '') for x in c), TUS_C, 'h_compile_classify', defs=c, unwind=130, timeout=1200, mem_gb=12,
